@@ -710,16 +710,18 @@ func freeRound(seed int64, run *report.Run) (string, string, fwitness) {
 func TestCheck(t *testing.T) {
 	run := report.New("C09", "exploration")
 	defer run.Finish(t)
-	run.Rule("controlled: 2-4 workers x 1-4 operations over {GetOrCreate k, Remove k, Clear}, keys 1-3, capacity 1-3, inside a synctest bubble; gates at the start of every operation and inside the create callback (released as success or failure); one gate per step after quiescence; random / PCT schedules and exhaustive DFS of 72 two-worker configurations. Monitors: at most one creation per key in progress; at every quiescent point resident = created-deleted <= capacity, in-flight table = creations in progress, list structure (hook); at the end Clear and every created value deleted exactly once; the history (returned values, whether create ran, delete callbacks per call) checked by porcupine against the sequential LRU model. free-running: 3-8 goroutines, yielding / sleeping / failing creations, sometimes slow delete callbacks (a key must not be created again before the delete callback of its previous value has returned), same monitors under the race detector. distinct = distinct (configuration, action trace) pairs")
+	run.Rule("controlled: 2-4 workers x 1-4 operations over {GetOrCreate k, Remove k, Clear}, keys 1-3, capacity 1-3, inside a synctest bubble; gates at the start of every operation and inside the create callback (released as success or failure); one gate per step after quiescence; random / PCT schedules and exhaustive DFS of 72 two-worker configurations. Monitors: at most one creation per key in progress; at every quiescent point resident = created-deleted <= capacity, in-flight table = creations in progress, list structure (hook); at the end Clear and every created value deleted exactly once; the history (returned values, whether create ran, delete callbacks per call) checked by porcupine against the sequential LRU model. free-running: 3-8 goroutines, yielding / sleeping / failing creations, sometimes slow delete callbacks (a key must not be created again before the delete callback of its previous value has returned), same monitors under the race detector, and once more in a second pass built without it (different timing). distinct = distinct (configuration, action trace) pairs")
 	run.Assume("logical timestamps (scheduler steps) in the controlled part: operations that overlap a step are treated as concurrent, which can only make the linearizability check more permissive")
 
 	if p := os.Getenv("VERIF_REPLAY"); p != "" {
 		replay(t, run, p)
 		return
 	}
-	nsh := runtime.NumCPU()
-	shard.Run(run, "TestChild", "random", nsh, 45*time.Minute)
-	shard.Run(run, "TestChild", "dfs", nsh, 45*time.Minute)
+	if os.Getenv("VERIF_PASS") != "norace" { // the second pass (built without the race detector: other timing) repeats the free-running part only
+		nsh := runtime.NumCPU()
+		shard.Run(run, "TestChild", "random", nsh, 45*time.Minute)
+		shard.Run(run, "TestChild", "dfs", nsh, 45*time.Minute)
+	}
 
 	n := run.Pick(4000, 300000)
 	var wg sync.WaitGroup
